@@ -73,6 +73,9 @@ class Sim:
         # per-run identity order of tasks
         SimTask._sim_mult = (1, 3, 5, 7, 11, 0x9E3779B1, 0x85EBCA6B, 0x27D4EB2F)[tape.draw(8, "task.hash.mult")]
         SimTask._sim_salt = tape.draw(64, "task.hash.salt")
+        from . import seams as _seams
+
+        _seams.reset_identity_hashes(SimTask._sim_mult, SimTask._sim_salt)
         self.profile = tape.draw(len(PROFILES), "delay.profile") if profile is None else profile
         self.kind_scale: dict = {}
         self.entity_slow: dict = {}
